@@ -462,6 +462,75 @@ TZS = [None, None, dt.timezone.utc, dt.timezone(dt.timedelta(hours=5, minutes=30
 
 
 SUBS = False     # when True, some leaf values are instances of proper subclasses (C03)
+TEXT = None      # optional callable rng -> str: where the text of `str` values (fields, elements, dict keys and values, texts below Any) is drawn from
+
+
+# --------------------------------------------------------------------------- text over the whole character range
+# A `str` value is any sequence of code points. The classes below partition what writers / readers of text formats treat
+# differently: what must be escaped, what is a line break to some reader, what a code page lacks, what needs two UTF-16 units,
+# what reads like a scalar of another type, what is folded at a line width.
+CHAR_CLASSES = {
+    'ascii-alnum': 'abcxyzABZ019',
+    'ascii-blank': ' ',
+    'ascii-punct': ':#-?,[]{}&*!|>\'"%@`=.~<+/\\;$^()_',
+    'c0-break': '\n\r\t',
+    'c0-control': '\x00\x01\x07\x08\x0b\x0c\x1b\x1c\x1d\x1e\x1f\x7f',
+    'c1-control': ''.join(map(chr, range(0x80, 0xa0))),                         # U+0085 NEXT LINE is one of them
+    'latin1': '\xa0\xa1\xad\xb5\xdf\xe9\xe8\xef\xfc\xff\xd7',
+    'cp1252-extra': '\u20ac\u201c\u201d\u2013\u2026\u0153\u017e',
+    'bmp-letter': '\u03b1\u03a9\u0416\u044f\u05d0\u0627\u0e01\u6f22\u65e5\u672c\u8a9e\uac00\u0131\u0130\u01c5',
+    'combining': '\u0301\u0308\u20e3\u093f\ufe0f',
+    'unicode-space': '\u1680\u2000\u2003\u2009\u200a\u202f\u205f\u3000',
+    'unicode-break': '\u2028\u2029',
+    'format': '\u200b\u200c\u200d\u200e\u200f\u202a\u202e\u2060\ufeff\u061c',
+    'private-nonchar': '\ue000\uf8ff\ufdd0\ufffe\uffff\ufffd\ufffc',
+    'astral': '\U0001f600\U0001f468\U00010000\U0001d11e\U00020000\U000e0001\U000f0000\U0010fffd\U0010ffff\U0001fffe',
+    'surrogate': '\ud800\udbff\udc00\udfff',
+}
+CHAR_CLASS_WEIGHTS = [('ascii-alnum', 5), ('ascii-blank', 3), ('ascii-punct', 3), ('c0-break', 2), ('c0-control', 2), ('c1-control', 4),
+                      ('latin1', 3), ('cp1252-extra', 2), ('bmp-letter', 3), ('combining', 1), ('unicode-space', 1), ('unicode-break', 2),
+                      ('format', 2), ('private-nonchar', 1), ('astral', 2), ('surrogate', 1)]
+# texts that read like a scalar of another type / like syntax in some text format
+LOOKALIKE_TEXT = ['null', '~', 'Null', 'yes', 'No', 'on', 'off', 'true', 'False', 'y', 'n', '0x1F', '0o17', '1_000', '1e3', '.5', '.inf', '-.Inf', '.nan',
+                  '+1', '012', '1:30', '2001-12-14', '2001-12-14T21:59:43.10-05:00', '<<', '=', '---', '...', '- a', 'a: b', 'a #b', '#', '!!str x', '&a', '*a',
+                  '[1]', '{a: 1}', '|', '>', '%TAG', '@x', '`x`', '"', "'", "''", '""', '\\', '\\n', '\\x85', '\\u0085', '[[t]]', 'a = 1', 'a.b', '{{', '1979-05-27 07:32:00']
+
+
+import re as _re
+_SURROGATE_PAIR = _re.compile('[\ud800-\udbff]+(?=[\udc00-\udfff])')
+
+
+def any_text(rng, max_len=12):
+    """a `str` drawn from all texts: a few character classes mixed, any length from 0 (now and then far beyond a writer's line width),
+    blanks / breaks at either end, or a text that reads like something else"""
+    r = rng.random()
+    if r < 0.12:
+        s = rng.choice(LOOKALIKE_TEXT)
+        return s if rng.random() < 0.7 else s + any_text(rng, 4)
+    names = [n for n, _w in CHAR_CLASS_WEIGHTS]
+    weights = [w for _n, w in CHAR_CLASS_WEIGHTS]
+    classes = rng.choices(names, weights, k=rng.choice([1, 1, 2, 2, 3]))
+    n = rng.choice([0, 1, 1, 2, 3, 5, 8, max_len]) if r < 0.93 else rng.randint(70, 200)
+    if n > 20 and rng.random() < 0.7:
+        classes.append('ascii-blank')                       # long lines with places where a writer may fold them
+    s = ''.join(rng.choice(CHAR_CLASSES[rng.choice(classes)]) for _ in range(n))
+    e = rng.random()
+    if e < 0.08:
+        s = rng.choice(' \n\t\x85\u2028\xa0\ufeff') + s
+    elif e < 0.16:
+        s = s + rng.choice(' \n\t\x85\u2028\xa0\r')
+    # a high surrogate directly before a low one is not a text of its own in any encoding form (it *is* the astral character): lone ones only
+    return _SURROGATE_PAIR.sub('', s)
+
+
+def any_text_value(rng):
+    """what an Any position may hold when it holds text: a text, or texts inside the plain containers (keys included)"""
+    r = rng.random()
+    if r < 0.6:
+        return any_text(rng)
+    if r < 0.8:
+        return [any_text(rng) for _ in range(rng.randint(1, 3))]
+    return {any_text(rng): rng.choice([any_text(rng), 1, None, [any_text(rng)]]) for _ in range(rng.randint(1, 2))}
 CATCH_ALL_VALUES = None   # optional callable (rng, cls type node, built, size) -> the mapping held by a CatchAll field (C03)
 
 
@@ -482,12 +551,16 @@ def _gen_scalar(rng, k):
         return rng.choice([0.0, -0.0, 1.0, 1.5, -2.25, 0.1, 1e16, 1.5e300, 5e-324, 2.5, 3.5, -0.5, 123456.789,
                            float('inf'), rng.random() * 1000])
     if k == 'str':
+        if TEXT is not None:
+            return TEXT(rng)
         return rng.choice(['', 'a', 'hello world', 'Zed', '123', '1.5', 'true', 'None', 'Z+00:00', 'é漢', 'a"b\'c\\', ' x ', '\n', '2020-01-01'])
     if k == 'bool':
         return rng.choice([True, False])
     if k == 'none':
         return None
     if k == 'any':
+        if TEXT is not None and rng.random() < 0.6:
+            return any_text_value(rng) if TEXT is any_text else TEXT(rng)
         return rng.choice([None, 1, 'x', 2.5, True, [1, 'a'], {'k': [1, 2]}, []])
     if k == 'decimal':
         return decimal.Decimal(rng.choice(['0', '1.50', '-3.14159', '1E+3', '0.000001', '123456789012345678901234567890.5', '-0', 'Infinity']))
